@@ -40,6 +40,7 @@ def families(tier, seed):
     out = list()
     for sh in shapes.family(tier, seed):
         out.append(_w('prime/unprime', ph.h_prime_unprime, sh))
+        out.append(_w('prime/unprime of variables declared after an earlier call', ph.h_prime_after_declare, sh))
         out.append(_w('replace_with_primed/unprimed', ph.h_replace_with, sh))
         out.append(_w('support classification', ph.h_support, sh))
     out.append(_w('rename_variables', ph.h_rename_variables, RENAME_SHAPE,
